@@ -96,8 +96,11 @@ package core
 //@   modifies all(gateImpl.canceled), all(gateImpl.err)
 //@   ensures [all-gates] gateCancelled(s.externalAgentsRegisteredGate, err) && gateCancelled(s.runtimeReadyGate, err) && gateCancelled(s.agentReadyGate, err) && gateCancelled(s.runtimeRestoreReadyGate, err)
 
+// C08: a cleared flow expects what a newly made one expects (the constructor's counts: an extension of the next generation
+// may arrive at the ready gate before the platform has set that generation's count)
 //@ func (*initFlowSynchronizationImpl).Clear
-//@   modifies all(gateImpl.canceled), all(gateImpl.err), all(gateImpl.arrived)
+//@   modifies all(gateImpl.canceled), all(gateImpl.err), all(gateImpl.arrived), all(gateImpl.count)
+//@   ensures [expects-what-a-new-flow-expects] gateOf(s.runtimeReadyGate).count == 1 && gateOf(s.externalAgentsRegisteredGate).count == 0 && gateOf(s.agentReadyGate).count == 65535 && gateOf(s.runtimeRestoreReadyGate).count == 1
 //@   ensures [all-gates] gateCleared(s.externalAgentsRegisteredGate) && gateCleared(s.runtimeReadyGate) && gateCleared(s.agentReadyGate) && gateCleared(s.runtimeRestoreReadyGate)
 //@   ensures [only-its-own-gates] forall g *gateImpl :: g != gateOf(s.externalAgentsRegisteredGate) && g != gateOf(s.runtimeReadyGate) && g != gateOf(s.agentReadyGate) && g != gateOf(s.runtimeRestoreReadyGate) ==> g.canceled == old(g.canceled) && g.arrived == old(g.arrived) && g.err == old(g.err)
 
@@ -106,7 +109,8 @@ package core
 //@   ensures [all-gates] gateCancelled(s.runtimeResponseGate, err) && gateCancelled(s.runtimeReadyGate, err) && gateCancelled(s.agentReadyGate, err)
 
 //@ func (*invokeFlowSynchronizationImpl).Clear
-//@   modifies all(gateImpl.canceled), all(gateImpl.err), all(gateImpl.arrived)
+//@   modifies all(gateImpl.canceled), all(gateImpl.err), all(gateImpl.arrived), all(gateImpl.count)
+//@   ensures [expects-what-a-new-flow-expects] gateOf(s.runtimeReadyGate).count == 1 && gateOf(s.runtimeResponseGate).count == 1 && gateOf(s.agentReadyGate).count == 65535
 //@   ensures [all-gates] gateCleared(s.runtimeResponseGate) && gateCleared(s.runtimeReadyGate) && gateCleared(s.agentReadyGate)
 //@   ensures [only-its-own-gates] forall g *gateImpl :: g != gateOf(s.runtimeResponseGate) && g != gateOf(s.runtimeReadyGate) && g != gateOf(s.agentReadyGate) ==> g.canceled == old(g.canceled) && g.arrived == old(g.arrived) && g.err == old(g.err)
 
